@@ -142,6 +142,29 @@ def add_weighted_detour(rng, case, id_pool):
     case['queries'].append(['first', gid, a, rel, nodes[0][1]])
 
 
+def prune_props(case, failing):
+    """shrinking: forget properties of links/nodes that are gone, then every property the failure does not need"""
+    case = json.loads(json.dumps(case))
+    for g in case['graphs']:
+        live = set(pair_key(l[0], l[1]) for l in g['links'])
+        if 'lprops' in g:
+            g['lprops'] = {k: v for k, v in g['lprops'].items() if k in live}
+        if 'nprops' in g:
+            g['nprops'] = {k: v for k, v in g['nprops'].items() if k in set(n[0] for n in g['nodes'])}
+    for gi, g in enumerate(case['graphs']):
+        for fld in ('lprops', 'nprops'):
+            for k in list(g.get(fld, {})):
+                for name in list(g[fld][k]):
+                    c2 = json.loads(json.dumps(case))
+                    del c2['graphs'][gi][fld][k][name]
+                    if not c2['graphs'][gi][fld][k]:
+                        del c2['graphs'][gi][fld][k]
+                    if failing(c2):
+                        case = c2
+                        g = case['graphs'][gi]
+    return case
+
+
 def build_store(case):
     """build the graphs of the case through the public API; returns (importer, {gid: graph object})"""
     imp = importer(case.get('backend', 'joint'))
@@ -909,7 +932,7 @@ class QueryStream(Stream):
                         break
                 if changed:
                     break
-        return case
+        return prune_props(case, failing)
 
 
 class RandomStream(QueryStream):
